@@ -1091,7 +1091,7 @@ package apd
 //@   ensures [impossible] c.Precision >= 1 && old(bothfin(x, y) && !iszero(y) && !gap(x, y)) && nd10(div(old(upA(x, y)), old(upB(x, y)))) > c.Precision ==> (d.Form == NaN && ret0 == DivisionImpossible)
 
 //@ func (*Context).Rem
-//@   props C02 C03 C05 C06 C07 C08 C10
+//@   props C02 C03 C05 C06 C07 C08 C10 C20
 //@   exported
 //@   requires writable(d) && inv(x) && inv(y)
 //@   assigns d
@@ -1153,7 +1153,7 @@ package apd
 //@   ensures ret == cmptotal(d, x)
 
 //@ func (*Context).Cmp
-//@   props C15 C03 C05 C06 C08
+//@   props C15 C03 C05 C06 C08 C02
 //@   exported
 //@   requires writable(d) && inv(x) && inv(y)
 //@   assigns d
@@ -1646,7 +1646,7 @@ package apd
 //@   ensures [up] old(inrange(v)) && -100000 <= exp && exp <= 100000 && exp <= old(v.Exponent) && old(v.Exponent) - exp <= 100000 ==> (val(d.Coeff) == old(val(v.Coeff)) * pow10(old(v.Exponent) - exp) && d.Exponent == exp && d.Form == old(v.Form) && ret == 0)
 
 //@ func (*Context).toIntegral
-//@   props C02 C04 C06 C09
+//@   props C02 C04 C06 C09 C20
 //@   requires writable(d) && inv(x)
 //@   assigns d
 //@   outs d
@@ -1667,7 +1667,7 @@ package apd
 //@   ensures [unchanged] !ret0 ==> (unchanged(d) && ret1 == 0 && ret2 == nil)
 
 //@ func (*Context).RoundToIntegralValue
-//@   props C02 C03 C04 C05 C06 C08 C09
+//@   props C02 C03 C04 C05 C06 C08 C09 C20
 //@   exported
 //@   requires writable(d) && inv(x)
 //@   assigns d
@@ -1680,7 +1680,7 @@ package apd
 //@   ensures [value] ctxsane(c) && c.MaxExponent >= 0 && old(qguard(c, x, 0)) ==> hassys(ret0) || (d.Form == Finite && val(d.Coeff) == old(QV(c, x, 0)) && d.Exponent == 0 && d.Negative == old(x.Negative) && only(ret0, Clamped))
 
 //@ func (*Context).RoundToIntegralExact
-//@   props C02 C03 C04 C05 C06 C08 C09
+//@   props C02 C03 C04 C05 C06 C08 C09 C20
 //@   exported
 //@   requires writable(d) && inv(x)
 //@   assigns d
@@ -1693,7 +1693,7 @@ package apd
 //@   ensures [value] ctxsane(c) && c.MaxExponent >= 0 && old(qguard(c, x, 0)) ==> hassys(ret0) || (d.Form == Finite && val(d.Coeff) == old(QV(c, x, 0)) && d.Exponent == 0 && d.Negative == old(x.Negative) && (has(ret0, Inexact) <==> (0 > old(x.Exponent) && RR(old(val(x.Coeff)), -old(x.Exponent)) != 0)) && (has(ret0, Inexact) ==> has(ret0, Rounded)) && only(ret0, Inexact | Rounded | Clamped))
 
 //@ func (*Context).Quantize
-//@   props C02 C03 C04 C05 C06 C07 C08 C09
+//@   props C02 C03 C04 C05 C06 C07 C08 C09 C20
 //@   exported
 //@   requires writable(d) && inv(x)
 //@   assigns d
@@ -1763,7 +1763,7 @@ package apd
 //@ define RExp(c: *Context, neg: bool, C: int, E: int): int = ite(C == 0, ite(E < etiny(c), etiny(c), ite(E > c.MaxExponent, c.MaxExponent, E)), ite(E + nd10(C) - 1 < c.MinExponent, max(E, etiny(c)), NEXP(c, neg, C, E)))
 
 //@ func (*Context).Reduce
-//@   props C01 C03 C04 C05 C06 C07 C08 C19
+//@   props C01 C03 C04 C05 C06 C07 C08 C19 C02
 //@   exported
 //@   reveal RoundedNS
 //@   requires writable(d) && inv(x)
